@@ -341,6 +341,8 @@ def work_c07(prop, tier, seed, widx, nworkers):
             k = rng.randint(2, 6)
             runs = [[f'r{i}', rng.choice([0, 1, 2, 3])] for i in range(k)]
             case = base_case(prog, runs, rng, shape='seq', snapshot=True)
+            if rng.random() < 0.4:
+                case['shared_meta'] = True      # the caller reuses one meta dict for every run
             res = cases.run_case(case, built)
             # every finding of a later run on a reused chart refutes C07 as well
             for f in res['findings']:
@@ -373,6 +375,8 @@ def work_c08(prop, tier, seed, widx, nworkers):
             k = rng.randint(2, 5)
             runs = [[f'r{i}', rng.choice([0, 1, 2, 3])] for i in range(k)]
             case = base_case(prog, runs, rng, shape='overlap', start_gated=rng.random() < 0.5)
+            if rng.random() < 0.3:
+                case['shared_meta'] = True
             case['ctl']['batch'] = rng.choice([2, 3, 4, 6])
             if rng.random() < 0.3:
                 case['ctl']['cancel_at'] = {str(rng.randrange(k)): rng.randint(2, 40)}
@@ -397,7 +401,60 @@ def work_c08(prop, tier, seed, widx, nworkers):
             acc.add(case, res)
             acc.counters['overlapping_runs'] = acc.counters.get('overlapping_runs', 0) + k
         built.close()
+    _pipeline_ids(acc)
     return acc.result()
+
+
+def _pipeline_ids(acc, batches=40, width=6):
+    """Runs started together without an explicit pipeline_id must get distinct ids (everything keyed by the id -
+    artifacts, events - would otherwise be shared by overlapping runs).  Real loop, trivial two-node chart."""
+    import asyncio
+    harness.setup_engine()
+    from ml_pipeline_engine.chart import PipelineChart
+    from ml_pipeline_engine.dag_builders.annotation import build_dag
+    from ml_pipeline_engine.dag_builders.annotation.marks import Input
+    from ml_pipeline_engine.node import ProcessorBase
+
+    class PidIn(ProcessorBase):
+        name = 'rv_pid_in'
+
+        async def process(self, x: int) -> int:
+            return x
+
+    class PidOut(ProcessorBase):
+        name = 'rv_pid_out'
+
+        async def process(self, a: Input(PidIn)) -> int:
+            await asyncio.sleep(0)
+            return a + 1
+    # this module postpones the evaluation of annotations: give the builder real objects
+    PidIn.process.__annotations__ = {'x': int, 'return': int}
+    PidOut.process.__annotations__ = {'a': Input(PidIn), 'return': int}
+    chart = PipelineChart('rv_pid', build_dag(input_node=PidIn, output_node=PidOut))
+
+    async def batch():
+        return await asyncio.gather(*[chart.run(input_kwargs={'x': i}) for i in range(width)])
+    loop = asyncio.new_event_loop()
+    try:
+        for b in range(batches):
+            res = loop.run_until_complete(batch())
+            ids = [str(r.pipeline_id) for r in res]
+            acc.evaluations += 1
+            acc.counters['pipeline_id_batches'] = acc.counters.get('pipeline_id_batches', 0) + 1
+            if len(set(ids)) != len(ids) or any(r.error is not None or r.value != i + 1 for i, r in enumerate(res)):
+                acc.findings.append({'kind': 'duplicate_pipeline_id', 'prop': ['C08'], 'tags': [],
+                                     'detail': {'ids': ids[:6], 'values': [repr(r.value) for r in res][:6]},
+                                     'case': {'what': 'pipeline_ids', 'runner': 'pipeline_ids_case'}})
+                break
+    finally:
+        loop.close()
+        asyncio.set_event_loop(None)
+
+
+def pipeline_ids_case(case):
+    acc = Acc('C08')
+    _pipeline_ids(acc)
+    return [{'kind': f['kind'], 'prop': f['prop'], 'detail': f['detail']} for f in acc.findings]
 
 
 RULES['C08'] = ('grammar programs x multisets of 2-5 overlapping chart.run tasks on one virtual loop (distinct run tags '
